@@ -108,7 +108,11 @@ func runBackend(kind string, bs int, c cfg, mm *gostatsd.MetricMap) string {
 		if b.Run != nil {
 			vsched.GoNamed("backend.Run", func() { b.Run(ctx) })
 		}
-		b.Backend.SendMetricsAsync(ctx, mm, func(errs []error) { cbs++ })
+		b.Backend.SendMetricsAsync(ctx, mm, func(errs []error) {
+			if !vsched.Aborting() {
+				cbs++
+			}
+		})
 		vsched.Quiesce("sent")
 	})
 	res.Evaluations++
